@@ -14,6 +14,7 @@ use carriers::*;
 use scylla_cql_core::frame::response::result::{CollectionType, ColumnSpec, ColumnType, NativeType, TableSpec};
 use scylla_cql_core::serialize::row::{RowSerializationContext, SerializedValues};
 use scylla_cql_core::serialize::value::SerializeValue;
+use scylla_cql_core::serialize::RowWriter;
 use scylla_cql_core::value::{Counter, CqlDate, CqlDecimal, CqlDuration, CqlTime, CqlTimestamp, CqlTimeuuid, CqlValue, CqlVarint};
 use std::collections::HashMap;
 use std::panic::AssertUnwindSafe;
@@ -25,6 +26,8 @@ const PREFIX: [u8; 3] = [0xc1, 0xc2, 0xc3];
 struct Ctx {
     ser: Vec<SerEntry>,
     de: Vec<DeEntry>,
+    rows: Vec<RowEntry>,
+    row_idx: HashMap<String, usize>,
     ser_idx: HashMap<String, usize>,
     de_idx: HashMap<String, usize>,
 }
@@ -33,7 +36,9 @@ impl Ctx {
         let (ser, de) = registries();
         let ser_idx = ser.iter().enumerate().map(|(i, e)| (e.name.clone(), i)).collect();
         let de_idx = de.iter().enumerate().map(|(i, e)| (e.name.clone(), i)).collect();
-        Ctx { ser, de, ser_idx, de_idx }
+        let rows = row_registry();
+        let row_idx = rows.iter().enumerate().map(|(i, e)| (e.name.clone(), i)).collect();
+        Ctx { ser, de, rows, row_idx, ser_idx, de_idx }
     }
     fn ser_entry(&self, name: &str) -> Result<&SerEntry, String> {
         self.ser_idx.get(name).map(|i| &self.ser[*i]).ok_or(format!("error unknown-ser-carrier:{}", name))
@@ -121,7 +126,7 @@ fn run_case(ctx: &Ctx, case: &str) -> String {
             }
             out.join(" ")
         }
-        ["X", rep, c1, t1, v1, c2, t2, v2] => {
+        ["X", rep, c1, t1, v1, others @ ..] if !others.is_empty() && others.len() % 3 == 0 => {
             let rep = usize::from_str_radix(rep, 16).unwrap_or(0);
             let mut sv = SerializedValues::new();
             let mut last = "ok".to_string();
@@ -135,17 +140,21 @@ fn run_case(ctx: &Ctx, case: &str) -> String {
                 _ => return "error bad-case".into(),
             };
             for _ in 0..rep {
-                last = match (e.add)(&mut sv, &kv, &ty) {
-                    Some(Ok(())) => "ok".into(),
-                    Some(Err(l)) => format!("err:{}", l),
-                    None => return "error not-buildable".into(),
+                last = match catch(AssertUnwindSafe(|| (e.add)(&mut sv, &kv, &ty))) {
+                    Ok(Some(Ok(()))) => "ok".into(),
+                    Ok(Some(Err(l))) => format!("err:{}", l),
+                    Ok(None) => return "error not-buildable".into(),
+                    Err(_) => "panic".into(),
                 };
             }
-            let tok1 = token(&last, &sv);
-            match add_one(ctx, &mut sv, c2, t2, v2) {
-                Ok(res) => format!("{} {}", tok1, token(&res, &sv)),
-                Err(x) => x,
+            let mut out = vec![token(&last, &sv)];
+            for o in others.chunks(3) {
+                match add_one(ctx, &mut sv, o[0], o[1], o[2]) {
+                    Ok(res) => out.push(token(&res, &sv)),
+                    Err(x) => return x,
+                }
             }
+            out.join(" ")
         }
         ["R", ncols, rest @ ..] => {
             let ncols = usize::from_str_radix(ncols, 16).unwrap_or(usize::MAX);
@@ -185,8 +194,92 @@ fn run_case(ctx: &Ctx, case: &str) -> String {
                 Err(_) => "panic".into(),
             }
         }
+        ["T", ncols, rest @ ..] => {
+            let ncols = usize::from_str_radix(ncols, 16).unwrap_or(usize::MAX);
+            if rest.len() != ncols + 2 {
+                return "error bad-case".into();
+            }
+            let mut specs = vec![];
+            let mut types = vec![];
+            for (i, t) in rest[..ncols].iter().enumerate() {
+                match type_of_str(t) {
+                    Ok(ty) => {
+                        types.push(ty.clone());
+                        specs.push(ColumnSpec::owned(format!("c{}", i), ty, TableSpec::owned("ks".into(), "tbl".into())));
+                    }
+                    Err(x) => return format!("error bad-type:{}", x),
+                }
+            }
+            let e = match ctx.row_idx.get(rest[ncols]) {
+                Some(i) => &ctx.rows[*i],
+                None => return format!("error unknown-row-carrier:{}", rest[ncols]),
+            };
+            let nrows = usize::from_str_radix(rest[ncols + 1], 16).unwrap_or(0);
+            // the rows: values of the COLUMN types (what a server sends), derived from the case text
+            let mut r = Rng::new(fnv_u64(case.as_bytes()));
+            let mut data = vec![];
+            for _ in 0..nrows {
+                for t in &types {
+                    let v = cql_of_type(t, &mut r, false, 0);
+                    match add_value_bytes(&v, t) {
+                        Ok(b) => data.extend(b),
+                        Err(_) => data.extend((-1i32).to_be_bytes()),
+                    }
+                }
+            }
+            let data = bytes::Bytes::from(data);
+            match catch(AssertUnwindSafe(|| (e.new)(&specs, nrows, &data))) {
+                Ok(s) => s,
+                Err(_) => "panic".into(),
+            }
+        }
+        ["C", parts @ ..] if !parts.is_empty() => {
+            let mut plan = vec![];
+            for p in parts {
+                let n = usize::from_str_radix(&p[1..], 16).unwrap_or(0);
+                match &p[..1] {
+                    "c" => plan.push((false, n)),
+                    "a" if n <= 65535 => {
+                        plan.push((true, n))
+                    }
+                    _ => return "error bad-case".into(),
+                }
+            }
+            let r = catch(AssertUnwindSafe(|| {
+                SerializedValues::from_closure(|w: &mut RowWriter| {
+                    for (append, n) in &plan {
+                        if *append {
+                            let mut part = SerializedValues::new();
+                            for _ in 0..*n {
+                                part.add_value(&Option::<i32>::None, &nat(NativeType::Int)).unwrap();
+                            }
+                            w.append_serialize_row(&part);
+                        } else {
+                            for _ in 0..*n {
+                                w.make_cell_writer().set_null();
+                            }
+                        }
+                    }
+                    Ok(())
+                })
+            }));
+            match r {
+                Ok(Ok((sv, ()))) => token("ok", &sv),
+                Ok(Err(e)) => format!("err:{}", row_leaf(&e)),
+                Err(_) => "panic".into(),
+            }
+        }
         _ => "error unknown-case".into(),
     }
+}
+
+fn fnv_u64(b: &[u8]) -> u64 {
+    let mut h: u64 = 0xcbf29ce484222325;
+    for x in b {
+        h ^= *x as u64;
+        h = h.wrapping_mul(0x100000001b3);
+    }
+    h
 }
 
 // ------------------------------------------------------------------ generators
@@ -338,7 +431,15 @@ fn cql_of_type(t: &Ty, r: &mut Rng, holes: bool, depth: u32) -> CqlValue {
 }
 
 /// a value of the carrier; populated (every position filled) unless `holes`
-fn witness(d: &Desc, t: Option<&Ty>, r: &mut Rng, holes: bool) -> KV {
+#[derive(Clone, Copy, PartialEq)]
+enum Mode {
+    Pop,
+    Holes,
+    /// populated, except that every HashSet / BTreeSet is empty
+    EmptySets,
+}
+fn witness(d: &Desc, t: Option<&Ty>, r: &mut Rng, mode: Mode) -> KV {
+    let holes = mode == Mode::Holes;
     let hole = |r: &mut Rng| holes && r.chance(1, 5);
     match d.name {
         "CqlValue" => KV::Leaf(match t {
@@ -346,10 +447,10 @@ fn witness(d: &Desc, t: Option<&Ty>, r: &mut Rng, holes: bool) -> KV {
             None => CqlValue::Int(1),
         }),
         "Unset" => KV::Unset,
-        "Opt" => if hole(r) { KV::Null } else { wrap(witness(&d.args[0], t, r, holes)) },
-        "MUnset" => if hole(r) { KV::Unset } else { wrap(witness(&d.args[0], t, r, holes)) },
-        "MEmpty" => if hole(r) { KV::Empty } else { wrap(witness(&d.args[0], t, r, holes)) },
-        "Ref" | "Box" | "Arc" | "Cow" | "Sec08" | "SecBox10" => wrap(witness(&d.args[0], t, r, holes)),
+        "Opt" => if hole(r) { KV::Null } else { wrap(witness(&d.args[0], t, r, mode)) },
+        "MUnset" => if hole(r) { KV::Unset } else { wrap(witness(&d.args[0], t, r, mode)) },
+        "MEmpty" => if hole(r) { KV::Empty } else { wrap(witness(&d.args[0], t, r, mode)) },
+        "Ref" | "Box" | "Arc" | "Cow" | "Sec08" | "SecBox10" => wrap(witness(&d.args[0], t, r, mode)),
         "Vec" | "Slice" | "HSet" | "BSet" => {
             let mut n = match dim_of(t) {
                 Some(dim) => dim,
@@ -365,7 +466,10 @@ fn witness(d: &Desc, t: Option<&Ty>, r: &mut Rng, holes: bool) -> KV {
                     _ => {}
                 }
             }
-            KV::Seq((0..n).map(|_| witness(&d.args[0], elem_of(t), r, holes)).collect())
+            if mode == Mode::EmptySets && (d.name == "HSet" || d.name == "BSet") {
+                n = 0;
+            }
+            KV::Seq((0..n).map(|_| witness(&d.args[0], elem_of(t), r, mode)).collect())
         }
         "HMap" | "BMap" => {
             let (kt, vt) = match t {
@@ -373,14 +477,14 @@ fn witness(d: &Desc, t: Option<&Ty>, r: &mut Rng, holes: bool) -> KV {
                 _ => (None, None),
             };
             let n = if holes && r.chance(1, 6) { 0 } else if d.name == "BMap" && holes && r.chance(1, 4) { 2 } else { 1 };
-            KV::Map((0..n).map(|_| (witness(&d.args[0], kt, r, holes), witness(&d.args[1], vt, r, holes))).collect())
+            KV::Map((0..n).map(|_| (witness(&d.args[0], kt, r, mode), witness(&d.args[1], vt, r, mode))).collect())
         }
         "Tup" => {
             let ts = match t {
                 Some(ColumnType::Tuple(ts)) => Some(ts),
                 _ => None,
             };
-            KV::Tup(d.args.iter().enumerate().map(|(i, a)| witness(a, ts.and_then(|ts| ts.get(i)), r, holes)).collect())
+            KV::Tup(d.args.iter().enumerate().map(|(i, a)| witness(a, ts.and_then(|ts| ts.get(i)), r, mode)).collect())
         }
         leaf => KV::Leaf(leaf_payload(leaf, r)),
     }
@@ -537,7 +641,7 @@ impl<'a> Gen<'a> {
         loop {
             let e = &self.ctx.ser[self.r.below(self.ctx.ser.len() as u64) as usize];
             let t = fit_type(&e.desc, &mut self.r);
-            let kv = witness(&e.desc, Some(&t), &mut self.r, holes);
+            let kv = witness(&e.desc, Some(&t), &mut self.r, if holes { Mode::Holes } else { Mode::Pop });
             if let Some(c) = (e.canon)(&kv) {
                 return (e.name.clone(), t, c);
             }
@@ -569,7 +673,19 @@ impl<'a> Gen<'a> {
                 2 => self.op_of("CqlValue", "U(6b73;7431;61:int;62:text)", "{udt(6b73;7431;61=int:1;62=int:2)}"),
                 _ => self.op_of("CqlValue", "M(int;L(text))", "{map(int:1=list(text:61;text:62);int:2=list(text:63;int:4))}"),
             },
-            7 => self.op_of("Vec[Opt[String]]", "L(int)", "seq[null,w[{text:61}]]"),
+            7 => match self.r.below(8) {
+                0 => self.op_of("Vec[Opt[String]]", "L(int)", "seq[null,w[{text:61}]]"),
+                // inside a vector element: packed (fixed width) and through the scratch buffer (variable width)
+                1 => self.op_of("Vec[CqlValue]", "V(int;2)", "seq[{int:1},{text:61}]"),
+                2 => self.op_of("Vec[CqlValue]", "V(text;2)", "seq[{text:61},{int:1}]"),
+                // a map key after a complete entry
+                3 => self.op_of("BMap[String,i32]", "M(text;text)", "map[{text:61}~{int:1}]"),
+                4 => self.op_of("Vec[CqlValue]", "L(M(int;int))", "seq[{map(int:1=int:2)},{map(text:61=int:2)}]"),
+                // through Box / Arc / & / secrecy
+                5 => self.op_of("Vec[Box[i32]]", "L(text)", "seq[w[{int:1}],w[{int:2}]]"),
+                6 => self.op_of("Box[Vec[i32]]", "L(text)", "w[seq[{int:1}]]"),
+                _ => self.op_of("Sec08[String]", "int", "w[{text:61}]"),
+            },
             // vector length mismatch
             8 => {
                 let b = *self.r.pick(&["i32", "String", "f64", "Uuid"]);
@@ -624,32 +740,83 @@ fn main() {
         out.case(&c, &o);
     };
 
-    // ---- fixed part 1: the serialisation matrix (populated witnesses)
-    for e in &ctx.ser {
-        for t in &types {
+    // ---- directed part (does not depend on the seed, except for WHICH quarter of the two-level
+    //      matrix the quick tier visits: the quarter rotates with the seed)
+    let mut dr = Rng::new(0xC17);
+    let quarter = |i: usize, j: usize| (i.wrapping_mul(7919) + j.wrapping_mul(104729) + a.seed as usize) % 4 == 0;
+    // 1. the serialisation matrix (populated witnesses)
+    for (i, e) in ctx.ser.iter().enumerate() {
+        for (j, t) in types.iter().enumerate() {
             let native = matches!(t, ColumnType::Native(_));
-            if !thorough && !native && !is_leaf_desc(&e.desc) && !g.r.chance(1, 4) {
+            if !thorough && !native && !is_leaf_desc(&e.desc) && !quarter(i, j) {
                 continue;
             }
-            let kv = witness(&e.desc, Some(t), &mut g.r, false);
+            let kv = witness(&e.desc, Some(t), &mut dr, Mode::Pop);
+            if let Some(c) = (e.canon)(&kv) {
+                emit(&mut out, format!("S 1 {} {} {}", e.name, s_type(t), c.show()));
+                // size-less top-level writers for the leaves
+                if native && is_leaf_desc(&e.desc) {
+                    emit(&mut out, format!("S 0 {} {} {}", e.name, s_type(t), c.show()));
+                }
+            }
+        }
+    }
+    // 2. empty sets (and values that hold only empty sets) against EVERY column type
+    for e in ctx.ser.iter().filter(|e| e.name.contains("HSet[") || e.name.contains("BSet[")) {
+        for t in &types {
+            let kv = witness(&e.desc, Some(t), &mut dr, Mode::EmptySets);
             if let Some(c) = (e.canon)(&kv) {
                 emit(&mut out, format!("S 1 {} {} {}", e.name, s_type(t), c.show()));
             }
         }
     }
-    // ---- fixed part 2: the deserialization type_check matrix
-    for e in &ctx.de {
-        for t in &types {
+    // 3. the deserialization type_check matrix
+    for (i, e) in ctx.de.iter().enumerate() {
+        for (j, t) in types.iter().enumerate() {
             let native = matches!(t, ColumnType::Native(_));
-            if !thorough && !native && !is_leaf_desc(&e.desc) && !g.r.chance(1, 4) {
+            if !thorough && !native && !is_leaf_desc(&e.desc) && !quarter(i, j) {
                 continue;
             }
             emit(&mut out, format!("D {} {}", e.name, s_type(t)));
         }
     }
-    // ---- fixed part 3: the 65535 cap
-    for c in ["X ffff Opt[i32] int null i32 int {int:1}", "X ffff i32 int {int:1} String int {text:61}",
-              "X fffe i32 int {int:1} i32 int {int:2}", "X ffff i32 int {int:1} Vec[CqlValue] L(int) seq[{int:1},{text:61}]"] {
+    // 4. typed rows: fitting columns, every single column perturbed, one column too few / too many
+    for e in &ctx.rows {
+        let cols: Vec<Ty> = e.desc.args.iter().map(|a| fit_type(a, &mut dr)).collect();
+        let t_case = |cols: &[Ty], n: usize| {
+            let mut p = vec![format!("T {:x}", cols.len())];
+            p.extend(cols.iter().map(s_type));
+            p.push(e.name.clone());
+            p.push(format!("{:x}", n));
+            p.join(" ")
+        };
+        emit(&mut out, t_case(&cols, 2));
+        for i in 0..cols.len().min(4) {
+            for _ in 0..2 {
+                let mut c2 = cols.clone();
+                c2[i] = perturb(&cols[i], &mut dr);
+                emit(&mut out, t_case(&c2, 2));
+            }
+        }
+        if !cols.is_empty() {
+            emit(&mut out, t_case(&cols[..cols.len() - 1], 1));
+        }
+        let mut c3 = cols.clone();
+        c3.push(nat(NativeType::Int));
+        emit(&mut out, t_case(&c3, 1));
+    }
+    // 5. the 65535 cap, alone and combined with other failures before and after it
+    for c in ["X ffff Opt[i32] int null i32 int {int:1}",
+              "X ffff i32 int {int:1} String int {text:61} i32 int {int:2} Vec[CqlValue] L(int) seq[{int:1},{text:61}]",
+              "X fffe i32 int {int:1} i32 int {int:2} i32 int {int:3}",
+              "X fffe i32 int {int:1} String int {text:61} i32 int {int:2} i32 int {int:3} String int {text:61}",
+              "X fffd i32 int {int:1} Vec[CqlValue] L(L(int)) seq[{list(int:1)},{list(int:2;text:61)}] Opt[i32] int null Vec[i32] V(int;2) seq[{int:1}] i32 int {int:9} i32 int {int:9}",
+              "X ffff Vec[i32] L(int) seq[{int:1},{int:2}] Tup[i32,String] T(int;int) tup[{int:1},{text:61}]"] {
+        emit(&mut out, c.to_string());
+    }
+    // 6. value counts that pass through a RowWriter (from_closure): cells and appended rows
+    for c in ["C c10000", "C a9c40 a9c40", "C cffff", "C cffff c1", "C affff c1", "C c8000 a8000", "C c7fff a8000", "C c0", "C c3 a2",
+              "C affff affff", "C a1 cffff", "C c10001", "C a8000 a8000 a8000"] {
         emit(&mut out, c.to_string());
     }
 
@@ -662,7 +829,7 @@ fn main() {
                 let (c, t, _) = g.good_op(false);
                 let e = ctx.ser_entry(&c).unwrap();
                 let t = if g.r.chance(1, 4) { perturb(&t, &mut g.r) } else { t };
-                let kv = witness(&e.desc, Some(&t), &mut g.r, holes);
+                let kv = witness(&e.desc, Some(&t), &mut g.r, if holes { Mode::Holes } else { Mode::Pop });
                 let kv = match (e.canon)(&kv) {
                     Some(k) => k,
                     None => continue,
@@ -684,8 +851,29 @@ fn main() {
                 let t = if c.starts_with("Vec") { list_t(t) } else { t };
                 format!("S 1 {} {} {}", c, s_type(&t), kv.show())
             }
+            // typed rows over fitting / perturbed / mis-counted columns
+            45..=48 => {
+                let e = &ctx.rows[g.r.below(ctx.rows.len() as u64) as usize];
+                let mut cols: Vec<Ty> = e.desc.args.iter().map(|a| fit_type(a, &mut g.r)).collect();
+                match g.r.below(6) {
+                    0 | 1 if !cols.is_empty() => {
+                        let i = g.r.below(cols.len() as u64) as usize;
+                        cols[i] = perturb(&cols[i], &mut g.r);
+                    }
+                    2 if !cols.is_empty() => {
+                        cols.pop();
+                    }
+                    3 => cols.push(random_type(&mut g.r, 1)),
+                    _ => {}
+                }
+                let mut p = vec![format!("T {:x}", cols.len())];
+                p.extend(cols.iter().map(s_type));
+                p.push(e.name.clone());
+                p.push(format!("{:x}", g.r.below(4)));
+                p.join(" ")
+            }
             // type_check
-            45..=54 => {
+            49..=54 => {
                 let e = &ctx.de[g.r.below(ctx.de.len() as u64) as usize];
                 let t = match g.r.below(3) {
                     0 => types[g.r.below(types.len() as u64) as usize].clone(),
